@@ -220,6 +220,23 @@ impl Sut for PStrSut {
     fn refused(&self, _op: &Op, _out: &OpOut) -> bool {
         false
     }
+    fn panic_expected(&self, pre: &[u8], op: &Op) -> bool {
+        // a buffer shorter than the prefix, or a recorded length beyond the buffer, is rejected by panic
+        if pre.len() < self.w {
+            return true;
+        }
+        if matches!(op.name, "load" | "size") {
+            let mut x = 0usize;
+            for i in 0..self.w {
+                x |= (pre[i] as usize) << (8 * i);
+            }
+            return x > pre.len() - self.w;
+        }
+        false
+    }
+    fn panic_property(&self) -> &'static str {
+        "C13"
+    }
     fn apply(&self, buf: &mut ABuf, op: &Op) -> OpOut {
         let w = self.w;
         let r = guarded(|| {
@@ -447,6 +464,9 @@ impl Sut for PodStrSut {
     }
     fn refused(&self, _op: &Op, _out: &OpOut) -> bool {
         false
+    }
+    fn panic_property(&self) -> &'static str {
+        "C14"
     }
     fn apply(&self, buf: &mut ABuf, op: &Op) -> OpOut {
         let n = self.n;
@@ -704,6 +724,12 @@ impl Sut for PodSut {
     }
     fn refused(&self, op: &Op, out: &OpOut) -> bool {
         op.name == "optset" && out.result == "false"
+    }
+    fn panic_expected(&self, pre: &[u8], op: &Op) -> bool {
+        pre.len() < self.size() && op.name != "enc"
+    }
+    fn panic_property(&self) -> &'static str {
+        "C15"
     }
     fn apply(&self, buf: &mut ABuf, op: &Op) -> OpOut {
         let kind = self.kind;
